@@ -35,6 +35,10 @@ type Params struct {
 	// MaxRetries > 0: the client's Backoff.MaxRetries (a budget per streak of failed attempts: every cut here
 	// follows a successful connection, so any number of cuts must be survived with MaxRetries 1).
 	MaxRetries int
+	// ExpiryResume (ValidReplayer, TTL 2 s): five events at t=0, two more at t=1.5 s, then 0.6 s pass: a client that
+	// was cut off inside the seventh event comes back when the first five have expired, a collection is due and the
+	// ring of 8 is about to shrink, while its resume point (the sixth event) is still alive.
+	ExpiryResume bool
 	// HeadCuts: after the forced body cut the remaining fault is a cut inside the head of a later response
 	HeadCuts bool
 	Preempt  int
@@ -54,6 +58,9 @@ func (p Params) Name() string {
 	}
 	if p.HeadCuts {
 		extra += "-headcuts"
+	}
+	if p.ExpiryResume {
+		extra += "-expiryresume"
 	}
 	return fmt.Sprintf("valid%v-cuts%s-killer%v-msgs%d-pb%d-fb%d-force%d.%d-expiry%v-big%v%s", p.Valid, p.Cuts, p.Killer, p.NMsg, p.Preempt, p.Faults, p.ForceAt, p.ForceVar, p.Expiry, p.Big, extra)
 }
@@ -111,7 +118,7 @@ func body(p Params) func() {
 		var inner sse.Replayer
 		if p.Valid {
 			ttl := time.Hour
-			if p.Expiry {
+			if p.Expiry || p.ExpiryResume {
 				ttl = 2 * time.Second
 			}
 			v, _ := sse.NewValidReplayer(ttl, !p.ValidManual)
@@ -141,11 +148,15 @@ func body(p Params) func() {
 			lastID = fmt.Sprint(p.NMsg - 1)
 		}
 		gotFifth := vrt.MakeChan[struct{}](8)
+		gotSeventh := vrt.MakeChan[struct{}](8)
 		conn.SubscribeToAll(func(e sse.Event) {
 			w.Got = append(w.Got, e)
 			w.Env.firstEvent.Poke(1)
-			if p.Expiry && e.LastEventID == "4" {
+			if (p.Expiry || p.ExpiryResume) && e.LastEventID == "4" {
 				vrt.Send(gotFifth, struct{}{})
+			}
+			if p.ExpiryResume && e.LastEventID == "6" {
+				vrt.Send(gotSeventh, struct{}{})
 			}
 			if e.LastEventID == lastID {
 				vrt.Send(caughtUp, struct{}{})
@@ -170,6 +181,14 @@ func body(p Params) func() {
 					// proviso): let time pass only once the client has everything published so far.
 					vrt.Recv(gotFifth)
 					vrt.Advance(int64(3 * time.Second)) // everything published so far expires
+				}
+				if p.ExpiryResume && k == 5 {
+					vrt.Recv(gotFifth)
+					vrt.Advance(int64(1500 * time.Millisecond))
+				}
+				if p.ExpiryResume && k == 7 {
+					vrt.Advance(int64(600 * time.Millisecond)) // the first five expire; a collection is due
+					vrt.Recv(gotSeventh)                        // the client - cut off or not - has caught up
 				}
 				w.Pub = append(w.Pub, rec)
 				w.PubErr = append(w.PubErr, srv.Publish(m))
@@ -355,6 +374,13 @@ func Scenarios(tier string) []run.Scenario {
 			add(Params{Valid: true, Cuts: "coarse", NMsg: 7, Preempt: 0, Faults: 0, Expiry: true, ForceAt: at, ForceVar: v})
 		}
 	}
+	// resuming at the moment a collection is due and the ring is about to shrink (one scenario per cut position)
+	for at := 44; at <= 62; at++ {
+		add(Params{Valid: true, Cuts: "coarse", NMsg: 8, Preempt: 0, Faults: 0, ExpiryResume: true, ForceAt: at})
+		if tier == "thorough" {
+			add(Params{Valid: true, Cuts: "coarse", NMsg: 8, Preempt: 0, Faults: 0, ExpiryResume: true, ForceAt: at, ForceVar: 1})
+		}
+	}
 	return out
 }
 
@@ -366,5 +392,5 @@ var Check = &run.Check{
 		"the whole-stack scenario is explored at preemption bound 0-1 and at most 1-2 cuts per execution; the fine-grained interleavings of its parts are covered by C03/C04/C06/C10",
 	},
 	Scenarios:   Scenarios,
-	QuickBudget: 120, ThoroughBudget: 1200,
+	QuickBudget: 200, ThoroughBudget: 1200,
 }
